@@ -75,6 +75,9 @@ func run(c *hc.Ctx) {
 			suffix := ""
 			if open {
 				suffix = " +open"
+			} else if hc.OverlappingEdges(cp) {
+				suffix = " +overlapping-edges"
+				c.Count("input-with-overlapping-edges")
 			}
 			pts := c.SamplePoints(40, cp, cr)
 			if c.Tier == "search" {
